@@ -26,6 +26,7 @@ Sync padding blocks are read by that very reader as empty metadata at the alignm
 import BV.Props.C04
 import BV.Props.C01
 import BV.Model.MetaBlock
+import BV.Lemmas.StreamRunMdRead
 
 namespace BV.Props.C04Run
 open BV.Stream BV.Bits
@@ -372,6 +373,300 @@ theorem flush_prefix_read_by_stream_reader {wo : WordOracle} {o : Oracle} {fuel 
   simp only [List.length_nil, Nat.add_zero] at this
   rw [this, hout']
 
+
+/-! ## histories WITH metadata: only the payload pieces remain hypotheses
+
+`run_factsX` (BV/Lemmas/StreamRunMd.lean) adds to the log of a history the ALIGNMENT of every padding block
+and metadata header (bit offset ≡ carry mod 8) and the GROUPING of metadata events (a header for `n` bytes
+is followed by body chunks totalling `n` before any other bit-carrying event).  With the reader lemmas of
+BV/Lemmas/StreamRunMdRead.lean every piece the state machine writes itself is then PROVED to be complete
+non-last meta-blocks that leave the reader state untouched; what is assumed is `PayloadDecode`: the
+`DecRd` statement for the payload-encoder events (`enc`, `fast`) only. -/
+
+/-- the padding block behind ANY carry (also the 14 bits of a large-window header) -/
+theorem sync_block_blocks (wo : WordOracle) (window : Nat) (large : Bool) (lbb pos : Nat) (hp : pos % 8 = lbb % 8) (s : RdSt) :
+    Blocks wo window large pos s (padBits lbb) s := by
+  have := Blocks.cons (wo := wo) (window := window) (large := large) (pos := pos) (s := s) (s1 := s) (s2 := s)
+    (b := padBits lbb) (bs := []) (fun rest => by simp [readMetaBlockFull, pad_readMetaBlock lbb pos hp rest]) (Blocks.nil _ _)
+  simpa using this
+
+/-- a whole metadata block (header, fill, `n` payload bytes) is one complete non-last meta-block that leaves
+the reader state untouched -/
+theorem md_block_blocks (wo : WordOracle) (window : Nat) (large : Bool) (n lbb pos : Nat) (hn : n ≤ 16777216)
+    (hp : pos % 8 = lbb % 8) (payload : List Bool) (hpl : payload.length = 8 * n) (s : RdSt) :
+    Blocks wo window large pos s (mdHeaderTail n lbb ++ payload) s := by
+  have := Blocks.cons (wo := wo) (window := window) (large := large) (pos := pos) (s := s) (s1 := s) (s2 := s)
+    (b := mdHeaderTail n lbb ++ payload) (bs := []) (fun rest => by
+      obtain ⟨bytes, hb, _⟩ := md_block_readMetaBlock n lbb pos hn hp payload rest hpl
+      unfold readMetaBlockFull
+      rw [hb]) (Blocks.nil _ _)
+  simpa using this
+
+/-- the payload hypothesis: `Dec` for the payload-encoder events only (cf. `PiecesDecode`, which asks it of
+every event) -/
+def PayloadDecode (Dec : List Bool → Bytes → Prop) (input : Bytes) (o : Oracle) : Nat → Pos → List Ev → Prop
+  | _, _, [] => True
+  | c, p, .enc k r pre sk tk :: es =>
+    Dec ((Ev.enc k r pre sk tk).bits o) ((input.drop c).take ((Ev.enc k r pre sk tk).adv p)) ∧
+      PayloadDecode Dec input o (c + (Ev.enc k r pre sk tk).adv p) ((Ev.enc k r pre sk tk).step p) es
+  | c, p, .fast k r :: es =>
+    Dec ((Ev.fast k r).bits o) ((input.drop c).take ((Ev.fast k r).adv p)) ∧
+      PayloadDecode Dec input o (c + (Ev.fast k r).adv p) ((Ev.fast k r).step p) es
+  | c, p, e :: es => PayloadDecode Dec input o (c + e.adv p) (e.step p) es
+
+/-- where the reader stands inside a log: at a boundary (`opn = 0`, nothing accumulated), or inside a metadata
+block whose header and first chunks are `acc`, `opn` payload bytes still to come -/
+def MidShape (p0 : Nat) (pre acc : List Bool) (opn : Nat) : Prop :=
+  (opn = 0 ∧ acc = []) ∨
+  (∃ n l chunks, 0 < opn ∧ acc = mdHeaderTail n l ++ chunks ∧ chunks.length + 8 * opn = 8 * n ∧
+    (p0 + pre.length) % 8 = l % 8 ∧ n ≤ 16777216)
+
+theorem take_add_drop (input : Bytes) (c a : Nat) : input.take c ++ (input.drop c).take a = input.take (c + a) := by
+  rw [List.take_add]
+
+/-- **body_blocks**: a log accepted by the metadata / alignment automaton, whose payload events decode
+(`DecRd`), is — from any reachable reader position — complete non-last meta-blocks that append exactly the
+input bytes the log covers -/
+theorem body_blocks (wo : WordOracle) (window : Nat) (large : Bool) (p0 : Nat) (s0 : RdSt) (input : Bytes) (o : Oracle) :
+    ∀ (log : List Ev), NoWindow log → ∀ (pre acc : List Bool) (s : RdSt) (opn c : Nat) (p : Pos),
+      Blocks wo window large p0 s0 pre s → MidShape p0 pre acc opn → s.out = input.take c →
+      MdLog o (p0 + pre.length + acc.length) opn log → logOpen opn log = 0 →
+      PayloadDecode (DecRd wo window large p0 s0 input) input o c p log →
+      ∃ s', Blocks wo window large p0 s0 (pre ++ acc ++ logBodyBits o log) s' ∧ s'.out = input.take (c + logAdv p log) := by
+  intro log
+  induction log with
+  | nil =>
+    intro _ pre acc s opn c p hre hsh hout _ hfin _
+    have h0 : opn = 0 := hfin
+    rcases hsh with ⟨_, rfl⟩ | ⟨n, l, ch, hpos, _⟩
+    · exact ⟨s, by simpa [logBodyBits] using hre, by simpa [logAdv] using hout⟩
+    · omega
+  | cons e es ih =>
+    intro hnw pre acc s opn c p hre hsh hout hmd hfin hpay
+    have hnw' : NoWindow es := fun e' he' => hnw e' (List.mem_cons_of_mem _ he')
+    obtain ⟨hg, hmd'⟩ := hmd
+    have hfin' : logOpen (evOpen opn e) es = 0 := hfin
+    -- events that carry no bits and touch neither the reader nor the automaton
+    have bitless : (e.bits o = []) → evOpen opn e = opn → e.adv p = 0 →
+        PayloadDecode (DecRd wo window large p0 s0 input) input o (c + e.adv p) (e.step p) es →
+        (∀ b, logBodyBits o (e :: es) = b → b = logBodyBits o es) →
+        ∃ s', Blocks wo window large p0 s0 (pre ++ acc ++ logBodyBits o (e :: es)) s' ∧
+          s'.out = input.take (c + logAdv p (e :: es)) := by
+      intro hb ho ha hp' hbody
+      rw [hb, List.length_nil, Nat.add_zero, ho] at hmd'
+      rw [ho] at hfin'
+      rw [ha, Nat.add_zero] at hp'
+      obtain ⟨s', b1, b2⟩ := ih hnw' pre acc s opn c (e.step p) hre hsh hout hmd' hfin' hp'
+      refine ⟨s', ?_, ?_⟩
+      · rw [hbody _ rfl]; exact b1
+      · show s'.out = input.take (c + (e.adv p + logAdv (e.step p) es))
+        rw [ha, Nat.zero_add]; exact b2
+    cases e with
+    | window b => exact absurd rfl (hnw _ List.mem_cons_self b)
+    | copy ch => exact bitless rfl rfl rfl hpay (fun _ h => by rw [← h]; rfl)
+    | push => exact bitless rfl rfl rfl hpay (fun _ h => by rw [← h]; rfl)
+    | tau j => exact bitless rfl rfl rfl hpay (fun _ h => by rw [← h]; rfl)
+    | pad l =>
+      obtain ⟨ho, hal⟩ := hg
+      subst ho
+      rcases hsh with ⟨_, rfl⟩ | ⟨n, l', chs, hpos, _⟩
+      · simp only [List.length_nil, Nat.add_zero] at hal hmd'
+        have hb := sync_block_blocks wo window large l (p0 + pre.length) hal s
+        have hre' := blocks_append hre hb
+        have hmd2 : MdLog o (p0 + (pre ++ padBits l).length + ([] : List Bool).length) 0 es := by
+          simpa [Ev.bits, evOpen, Nat.add_assoc] using hmd'
+        obtain ⟨s', b1, b2⟩ := ih hnw' (pre ++ padBits l) [] s 0 c ((Ev.pad l).step p) hre' (Or.inl ⟨rfl, rfl⟩) hout hmd2 hfin' hpay
+        refine ⟨s', ?_, ?_⟩
+        · simpa [logBodyBits, Ev.bits, List.append_assoc] using b1
+        · simpa [logAdv, Ev.adv] using b2
+      · omega
+    | enc k r pr sk tk =>
+      have ho : opn = 0 := hg
+      subst ho
+      rcases hsh with ⟨_, rfl⟩ | ⟨n, l', chs, hpos, _⟩
+      · obtain ⟨hd, hpay'⟩ := hpay
+        simp only [List.length_nil, Nat.add_zero] at hmd'
+        obtain ⟨s1, b1, o1⟩ := hd pre s hre (by rw [hout, take_add_drop]; exact List.take_prefix _ _)
+        have hre' := blocks_append hre b1
+        have hmd2 : MdLog o (p0 + (pre ++ (Ev.enc k r pr sk tk).bits o).length + ([] : List Bool).length) 0 es := by
+          simpa [evOpen, Nat.add_assoc] using hmd'
+        obtain ⟨s', c1, c2⟩ := ih hnw' (pre ++ (Ev.enc k r pr sk tk).bits o) [] s1 0 (c + (Ev.enc k r pr sk tk).adv p)
+          ((Ev.enc k r pr sk tk).step p) hre' (Or.inl ⟨rfl, rfl⟩) (by rw [o1, hout, take_add_drop]) hmd2 hfin' hpay'
+        refine ⟨s', ?_, ?_⟩
+        · simpa [logBodyBits, List.append_assoc] using c1
+        · show s'.out = input.take (c + ((Ev.enc k r pr sk tk).adv p + logAdv ((Ev.enc k r pr sk tk).step p) es))
+          rw [← Nat.add_assoc]; exact c2
+      · omega
+    | fast k r =>
+      have ho : opn = 0 := hg
+      subst ho
+      rcases hsh with ⟨_, rfl⟩ | ⟨n, l', chs, hpos, _⟩
+      · obtain ⟨hd, hpay'⟩ := hpay
+        simp only [List.length_nil, Nat.add_zero] at hmd'
+        obtain ⟨s1, b1, o1⟩ := hd pre s hre (by rw [hout, take_add_drop]; exact List.take_prefix _ _)
+        have hre' := blocks_append hre b1
+        have hmd2 : MdLog o (p0 + (pre ++ (Ev.fast k r).bits o).length + ([] : List Bool).length) 0 es := by
+          simpa [evOpen, Nat.add_assoc] using hmd'
+        obtain ⟨s', c1, c2⟩ := ih hnw' (pre ++ (Ev.fast k r).bits o) [] s1 0 (c + (Ev.fast k r).adv p)
+          ((Ev.fast k r).step p) hre' (Or.inl ⟨rfl, rfl⟩) (by rw [o1, hout, take_add_drop]) hmd2 hfin' hpay'
+        refine ⟨s', ?_, ?_⟩
+        · simpa [logBodyBits, List.append_assoc] using c1
+        · show s'.out = input.take (c + ((Ev.fast k r).adv p + logAdv ((Ev.fast k r).step p) es))
+          rw [← Nat.add_assoc]; exact c2
+      · omega
+    | mdHeader n l =>
+      obtain ⟨ho, hal, hn⟩ := hg
+      subst ho
+      rcases hsh with ⟨_, rfl⟩ | ⟨n', l', chs, hpos, _⟩
+      · simp only [List.length_nil, Nat.add_zero] at hal hmd'
+        have hpay' : PayloadDecode (DecRd wo window large p0 s0 input) input o c p es := by
+          have := hpay
+          simpa [PayloadDecode, Ev.adv, Ev.step] using this
+        by_cases h0 : n = 0
+        · subst h0
+          have hb := md_block_blocks wo window large 0 l (p0 + pre.length) hn hal [] rfl s
+          rw [List.append_nil] at hb
+          have hre' := blocks_append hre hb
+          have hmd2 : MdLog o (p0 + (pre ++ mdHeaderTail 0 l).length + ([] : List Bool).length) 0 es := by
+            simpa [Ev.bits, evOpen, Nat.add_assoc] using hmd'
+          obtain ⟨s', b1, b2⟩ := ih hnw' (pre ++ mdHeaderTail 0 l) [] s 0 c p hre' (Or.inl ⟨rfl, rfl⟩) hout hmd2 hfin' hpay'
+          refine ⟨s', ?_, ?_⟩
+          · simpa [logBodyBits, Ev.bits, List.append_assoc] using b1
+          · simpa [logAdv, Ev.adv, Ev.step] using b2
+        · have hmd2 : MdLog o (p0 + pre.length + (mdHeaderTail n l).length) n es := by
+            simpa [Ev.bits, evOpen, Nat.add_assoc] using hmd'
+          obtain ⟨s', b1, b2⟩ := ih hnw' pre (mdHeaderTail n l) s n c p hre
+            (Or.inr ⟨n, l, [], by omega, by simp, by simp, hal, hn⟩) hout hmd2 hfin' hpay'
+          refine ⟨s', ?_, ?_⟩
+          · simpa [logBodyBits, Ev.bits, List.append_assoc] using b1
+          · simpa [logAdv, Ev.adv, Ev.step] using b2
+      · omega
+    | mdBody b =>
+      have hle : b.length ≤ opn := hg
+      have hpay' : PayloadDecode (DecRd wo window large p0 s0 input) input o c p es := by
+        have := hpay
+        simpa [PayloadDecode, Ev.adv, Ev.step] using this
+      rcases hsh with ⟨h0, rfl⟩ | ⟨n, l, chs, hpos, hacc, hcnt, hal, hn⟩
+      · subst h0
+        have hb : b = [] := List.eq_nil_of_length_eq_zero (by omega)
+        subst hb
+        have hmd2 : MdLog o (p0 + pre.length + ([] : List Bool).length) 0 es := by
+          simpa [Ev.bits, evOpen, bytesBits] using hmd'
+        obtain ⟨s', b1, b2⟩ := ih hnw' pre [] s 0 c p hre (Or.inl ⟨rfl, rfl⟩) hout hmd2 (by simpa [evOpen] using hfin') hpay'
+        refine ⟨s', ?_, ?_⟩
+        · simpa [logBodyBits, Ev.bits, bytesBits] using b1
+        · simpa [logAdv, Ev.adv, Ev.step] using b2
+      · subst hacc
+        have hbl : (bytesBits b).length = 8 * b.length := bytesBits_length b
+        by_cases hc : opn - b.length = 0
+        · -- the block is complete
+          have hb := md_block_blocks wo window large n l (p0 + pre.length) hn hal (chs ++ bytesBits b)
+            (by rw [List.length_append, hbl]; omega) s
+          have hre' := blocks_append hre hb
+          have hmd2 : MdLog o (p0 + (pre ++ (mdHeaderTail n l ++ (chs ++ bytesBits b))).length + ([] : List Bool).length) 0 es := by
+            have := hmd'
+            simp only [Ev.bits, evOpen, hc] at this
+            simpa [Nat.add_assoc] using this
+          obtain ⟨s', b1, b2⟩ := ih hnw' (pre ++ (mdHeaderTail n l ++ (chs ++ bytesBits b))) [] s 0 c p hre' (Or.inl ⟨rfl, rfl⟩) hout hmd2
+            (by simpa [evOpen, hc] using hfin') hpay'
+          refine ⟨s', ?_, ?_⟩
+          · simpa [logBodyBits, Ev.bits, List.append_assoc] using b1
+          · simpa [logAdv, Ev.adv, Ev.step] using b2
+        · have hmd2 : MdLog o (p0 + pre.length + (mdHeaderTail n l ++ (chs ++ bytesBits b)).length) (opn - b.length) es := by
+            have := hmd'
+            simp only [Ev.bits, evOpen] at this
+            simpa [Nat.add_assoc] using this
+          obtain ⟨s', b1, b2⟩ := ih hnw' pre (mdHeaderTail n l ++ (chs ++ bytesBits b)) s (opn - b.length) c p hre
+            (Or.inr ⟨n, l, chs ++ bytesBits b, by omega, rfl, by rw [List.length_append, hbl]; omega, hal, hn⟩) hout hmd2
+            (by simpa [evOpen] using hfin') hpay'
+          refine ⟨s', ?_, ?_⟩
+          · simpa [logBodyBits, Ev.bits, List.append_assoc] using b1
+          · simpa [logAdv, Ev.adv, Ev.step] using b2
+
+/-- the other conclusion of `flush_complete` the metadata theorem uses: the state is PROCESSING again -/
+theorem flush_call_processing {o : Oracle} {fuel cap : Nat} {input : Bytes} {s s' : St} {io' : Io}
+    (hI : Inv s) (hrm : s.remainingMetadata = u32Max) (hw : s.inputPos + input.length < two64)
+    (hst : s.streamState = .processing ∨ s.streamState = .flushRequested)
+    (h : compressStream o fuel s 1 input cap = .ok (s', io', true))
+    (hdrained : hasMoreOutput s' = false) : s'.streamState = .processing :=
+  (BV.Props.C04.flush_complete hI hrm hw hst h hdrained).2.1
+
+/-- **flush_prefix_read_by_stream_reader_md** — histories WITH metadata, only the payload assumed.
+For every history on a fresh encoder (any interleaving of PROCESS / FLUSH / EMIT_METADATA calls and
+`take_output`s, any capacities, any oracle) that ends with a completed flush in state PROCESSING
+(`Flushed` and `stream_state_ = PROCESSING`: both conclusions of `flush_complete`), there is a log with
+`bytesBits t.delivered = header ++ logBodyBits o log` such that: if the header is read by the RFC 9.1 reader as
+`(lgwin, large)` and the PAYLOAD-ENCODER events of the log decode in the reader's sense (`PayloadDecode (DecRd …)`:
+nothing is asked of sync blocks, metadata headers or metadata bodies — those are proved), then the streaming
+reader fed exactly the delivered bytes answers `needMore` with the input bytes the log covers, which without
+one-shot blocks are ALL the input bytes supplied so far. -/
+theorem flush_prefix_read_by_stream_reader_md {wo : WordOracle} {o : Oracle} {fuel : Nat}
+    {calls : List Call} {s0 s : St} {t : Trace}
+    (hf : IsFresh s0) (hops : HistOK calls) (hw : histLen calls < two64)
+    (h : run o fuel calls s0 {} = .ok (s, t)) (hF : Flushed s) (hst : s.streamState = .processing) :
+    ∃ (log : List Ev) (header : List Bool),
+      bytesBits t.delivered = header ++ logBodyBits o log ∧ s.inputPos = logCopied log ∧
+      ((∀ e ∈ log, ∀ k r, e ≠ .fast k r) → logAdv ⟨0, 0, 0, 0⟩ log = s.inputPos) ∧
+      ∀ (input : Bytes) (lgwin : Nat) (large : Bool),
+        (∀ rest, BV.HeaderSpec.readWbits (header ++ rest) = some (lgwin, large, rest)) →
+        PayloadDecode (DecRd wo (2 ^ lgwin - 16) large header.length ⟨[], [4, 11, 15, 16]⟩ input) input o 0 ⟨0, 0, 0, 0⟩ log →
+        readStreamPrefix wo (bytesBits t.delivered) = .needMore (input.take (logAdv ⟨0, 0, 0, 0⟩ log)) := by
+  have hip0 : s0.inputPos = 0 := (isFresh_fields hf).2.2.1
+  obtain ⟨log, f⟩ := run_factsX (o := o) (fuel := fuel) (t0 := {}) (runOK_fresh hf) hops (by rw [hip0]; omega) h
+  have hb := f.bits
+  rw [deliveredBits_fresh hf, List.nil_append, deliveredBits_flushed hF] at hb
+  have hp0 := pos_fresh hf
+  have hpos := f.pos
+  rw [hp0] at hpos
+  have hlok := f.lok
+  rw [hp0] at hlok
+  have hipc : s.inputPos = logCopied log := by
+    have := congrArg Pos.ip hpos
+    rw [logPos_ip] at this
+    simpa [St.pos] using this
+  have hadv : (∀ e ∈ log, ∀ k r, e ≠ .fast k r) → logAdv ⟨0, 0, 0, 0⟩ log = s.inputPos := by
+    intro hnf
+    have h1 := logAdv_lf hlok hnf
+    have hl : s.lastFlushPos = (logPos ⟨0, 0, 0, 0⟩ log).lf := congrArg Pos.lf hpos
+    rw [← hF.allFlushed, hl, ← h1]; simp
+  have hmd := f.md
+  rw [deliveredBits_fresh hf, mdOpen_fresh hf] at hmd
+  have hopn := f.opn
+  rw [mdOpen_fresh hf, mdOpen_of_not_md (by rw [hst]; simp)] at hopn
+  have hini0 : s0.isInitialized = false := isFreshInit hf
+  rcases f.win with ⟨_, _, rfl⟩ | ⟨_, _, b, rest, rfl, hnw⟩ | ⟨a1, _, _⟩
+  · refine ⟨[], [], by rw [hb]; rfl, hipc, hadv, ?_⟩
+    intro input lgwin large hhdr _
+    have := hhdr []
+    simp [BV.HeaderSpec.readWbits] at this
+  · refine ⟨.window b :: rest, b, ?_, hipc, hadv, ?_⟩
+    · rw [hb]
+      show logBits o (.window b :: rest) = b ++ logBodyBits o (.window b :: rest)
+      have : logBodyBits o (.window b :: rest) = logBodyBits o rest := rfl
+      rw [this, logBodyBits_noWindow o hnw]
+      simp [logBits, Ev.bits]
+    · intro input lgwin large hhdr hpay
+      obtain ⟨_, hmd'⟩ := hmd
+      have hmd2 : MdLog o (b.length + ([] : List Bool).length + ([] : List Bool).length) 0 rest := by
+        simpa [Ev.bits, evOpen] using hmd'
+      have hpay' : PayloadDecode (DecRd wo (2 ^ lgwin - 16) large b.length ⟨[], [4, 11, 15, 16]⟩ input) input o 0 ⟨0, 0, 0, 0⟩ rest := by
+        simpa [PayloadDecode, Ev.adv, Ev.step] using hpay
+      obtain ⟨s', b1, b2⟩ := body_blocks wo (2 ^ lgwin - 16) large b.length ⟨[], [4, 11, 15, 16]⟩ input o rest hnw [] []
+        ⟨[], [4, 11, 15, 16]⟩ 0 0 ⟨0, 0, 0, 0⟩ (Blocks.nil _ _) (Or.inl ⟨rfl, rfl⟩) (by simp) hmd2
+        (by simpa [logOpen, evOpen] using hopn.symm) hpay'
+      have hbody : logBits o (.window b :: rest) = b ++ logBodyBits o rest := by
+        rw [logBodyBits_noWindow o hnw]; simp [logBits, Ev.bits]
+      unfold readStreamPrefix
+      rw [hb, hbody, hhdr (logBodyBits o rest)]
+      simp only [List.length_append, Nat.add_sub_cancel]
+      have hrd := reader_needs_more_at_boundary b1 (logBodyBits o rest).length.succ (by simp)
+      simp only [List.nil_append] at hrd
+      rw [hrd, b2]
+      have : logAdv ⟨0, 0, 0, 0⟩ (Ev.window b :: rest) = logAdv ⟨0, 0, 0, 0⟩ rest := by
+        simp [logAdv, Ev.adv, Ev.step]
+      rw [this, Nat.zero_add]
+  · rw [hini0] at a1; cases a1
+
 /-! ## non-vacuity -/
 
 /-- a concrete flushed prefix: stream header `0` (WBITS 16), one stored meta-block holding the bytes 61 62
@@ -387,6 +682,23 @@ example : readStreamPrefix (fun _ _ _ => none) (examplePrefix.take 45) = .stuck 
 example : readStreamPrefix (fun _ _ _ => none) (examplePrefix ++ [true, true, false, false, false, false, false, false])
     = .done [0x61, 0x62] [] := by decide
 example : examplePrefix.length = 48 := by decide
+
+/-- a flushed prefix WITH a metadata block: header `0`, a metadata block of two bytes written behind the 1-bit
+carry (header `0 11 0 10 00000001`, fill, AA BB), the stored block "ab", the sync block: the reader yields "ab"
+and asks for more — the metadata does not show -/
+example : readStreamPrefix (fun _ _ _ => none)
+    ([false] ++ (mdHeaderTail 2 1 ++ bytesBits [0xAA, 0xBB])
+      ++ ([false] ++ [false, false] ++ bitsOf 16 1 ++ [true] ++ [false, false, false, false] ++ bitsOf 8 0x61 ++ bitsOf 8 0x62)
+      ++ padBits 0) = .needMore [0x61, 0x62] := by decide
+
+/-- a concrete history with EMIT_METADATA between the input and the FLUSH ends `Flushed` in state PROCESSING -/
+def flushedMdB (r : Out (St × Trace)) : Bool :=
+  match r with
+  | .ok (s, t) => s.pending.length == 0 && s.lastBytesBits == 0 && s.lastFlushPos == s.inputPos && s.inputPos == 3 &&
+      s.streamState == .processing && t.mdata == [7, 8] && t.delivered.length != 0
+  | _ => false
+example : flushedMdB (run BV.Props.C01.exampleOracle 40
+    [.setParam 1 5, .stream 0 [1, 2, 3] 100, .stream 3 [7, 8] 100, .stream 1 [] 100] St.new {}) = true := by decide
 
 /-- `Blocks` / `DecRd` are inhabited by real meta-blocks: the sync block at every carry -/
 example : Blocks (fun _ _ _ => none) 65520 false 3 ⟨[7], [4, 11, 15, 16]⟩ (padBits 3) ⟨[7], [4, 11, 15, 16]⟩ :=
